@@ -117,3 +117,7 @@ Theorem C04_addsub_kernel_is_todays_source : forall (R : Type) (O : ops R) (vals
   forall v, gen_neg_val O v = o_neg O v.
 Proof. intros R O vals kv. exact (conj (br_add_step O vals kv) (conj (br_sub_step O vals kv) (br_neg_val O))). Qed.
 Print Assumptions C04_addsub_kernel_is_todays_source.
+
+(* ---- source pins: the functions whose hand-written model carries the theorems above are still, textually (after
+   ast normalisation), the functions the model was validated against; an edit breaks Bridge/Pins_C04.v ---- *)
+From KV Require Bridge.Pins_C04.
